@@ -374,7 +374,9 @@ fn verif_sql_contracts() {
             for (k, (c, q)) in sq.iter().enumerate() {
                 let got = p.allocate_address(CLIENTS[*c], None, &pools3[*q], DEFAULT_MIN_LEASE, DEFAULT_MAX_LEASE, b"");
                 let own = dump(&mut p);
-                let other = rusqlite::Connection::open(&path).map_err(|e| e.to_string()).and_then(|c2| Pool::new_with_conn(c2).map_err(|e| format!("{:?}", e))).map(|mut p2| dump(&mut p2));
+                // (the second connection does not wait for locks: a writer that never commits must show up as a failure, not as a 5 s stall per probe)
+                let other = rusqlite::Connection::open(&path).map_err(|e| e.to_string())
+                    .and_then(|c2| { let _ = c2.busy_timeout(std::time::Duration::from_millis(20)); Pool::new_with_conn(c2).map_err(|e| format!("{:?}", e)) }).map(|mut p2| dump(&mut p2));
                 t_dur.check(other.as_ref().ok() == Some(&own), || format!("calls (client, pool)={:?} after call #{} (result {:?}): this process reads {:?}, a second connection reads {:?}", sq, k + 1, got.as_ref().map(|l| l.ip), own, other));
             }
         }
@@ -382,4 +384,51 @@ fn verif_sql_contracts() {
     }
     t_dur.done();
     let _ = std::fs::remove_dir_all(&dir);
+}
+
+// ---- C10 / C13 at the level of handle_pkt (whatever pool functions the handlers call): for a client with no history, with an expired
+//      lease (window 100 s / 3600 s) or with a live lease written 10 s / 200 s / 40000 s ago, a DISCOVER and a REQUEST each get a reply
+//      whose lease time L (option 51) is within [300, 86400] and the row of yiaddr names the client and covers exactly [t, t + L],
+//      t = time of the reply. ----
+#[test]
+fn verif_sql_handlers() {
+    use crate::dhcp::dhcppkt;
+    println!();      // (the harness prints "test <name> ... " without a line break in front of the first line a test writes)
+    let mut t_rec = Tally::new("handlers/reply-backed-by-record");
+    let conf = super::super::test::mk_default_config();
+    let addr: Ipv4Addr = "192.0.2.77".parse().unwrap();
+    let histories: [Option<(i64, i64)>; 6] = [None, Some((-200, -100)), Some((-7200, -3600)), Some((-10, 5000)), Some((-200, 5000)), Some((-40000, 50000))];
+    for h in histories {
+        for msgtype in [dhcppkt::DHCPDISCOVER, dhcppkt::DHCPREQUEST] {
+            let mut p = Pool::new_in_memory().expect("pool");
+            let mut req = super::super::test::mk_dhcp_request();
+            req.pkt.options = req.pkt.options.set_option(&dhcppkt::OPTION_MSGTYPE, &msgtype);
+            let cid = req.pkt.get_client_id();
+            if let Some((s, e)) = h {
+                let t = now() as i64;
+                p.conn.execute("INSERT INTO leases (address, clientid, start, expiry, options) VALUES (?1, ?2, ?3, ?4, ?5)",
+                    rusqlite::params![addr.to_string(), cid, (t + s) as u32, (t + e) as u32, Vec::<u8>::new()]).expect("seed row");
+            }
+            let mut ids = super::super::ServerIds::new();
+            ids.insert(req.serverip);
+            let t0 = now();
+            let got = crate::dhcp::handle_pkt(&mut p, &req, ids, &conf);
+            let t1 = now();
+            let ok = match &got {
+                Ok(r) => {
+                    let l = r.options.get_option::<u32>(&dhcppkt::OPTION_LEASETIME);
+                    let row = p.get_leases().ok().and_then(|ls| ls.into_iter().find(|x| x.ip == r.yiaddr));
+                    match (l, row) {
+                        (Some(l), Some(row)) => l >= 300 && l <= 86400 && row.client_id == cid && row.expire - row.start == l && row.start >= t0 && row.start <= t1,
+                        _ => false,
+                    }
+                }
+                Err(_) => false,
+            };
+            t_rec.check(ok, || format!("client history {:?} (start, expiry relative to now), message type {:?}: reply yiaddr {:?}, lease time {:?}, rows (ip, start-now, expiry-now) {:?}", h, msgtype,
+                got.as_ref().map(|r| r.yiaddr).ok(), got.as_ref().ok().and_then(|r| r.options.get_option::<u32>(&dhcppkt::OPTION_LEASETIME)),
+                p.get_leases().map(|ls| ls.into_iter().map(|x| (x.ip, x.start as i64 - t1 as i64, x.expire as i64 - t1 as i64)).collect::<Vec<_>>()).ok()));
+        }
+    }
+    t_rec.done();
 }
